@@ -16,13 +16,21 @@
       (or internal timer) that is still pending after the event was picked
       and was not already overdue is earlier than the event: an action that
       is not superseded fires before simulated time moves past it.
-    PARTIAL: these are contracts of each step of every run (the last one for
-    every event of every trace); the single trace-level sentence "every
-    PaddingSent is caused by the most recent action" is decided on generated
-    runs by the monitor, which replays the actions through fresh frameworks. *)
+    - [C17_trace]: the property at the level of whole runs. For every run on
+      a parsed trace that records all events, the returned trace is the event
+      column of a history H (each processed event with the actions its side's
+      framework returned for it) such that every PaddingSent / BlockingBegin
+      for machine m at position k is caused by an earlier record j of the same
+      side containing a SendPadding / BlockOutgoing action a for m: it happens
+      exactly at issue time + timeout, carries the action's flags, and every
+      later action-timer action for m on that side before k (a newer action
+      or a Cancel) was issued no earlier than the completion time, i.e. the
+      action had not been superseded before it was due; and the assignment
+      k |-> j is injective: every action fires at most once.
+    The "fires when due" direction is [C17_not_past] with [C17_slot]. *)
 From MB Require Import Model.Framework Model.Sim.
 From MB Require Import Proofs.SimReach.
-From MB Require Proofs.SimBlocking Proofs.SimTimers Proofs.SimTrace.
+From MB Require Proofs.SimBlocking Proofs.SimTimers Proofs.SimTrace Proofs.SimHistory Proofs.SimActionTrace.
 Import ListNotations SimTimers.
 Open Scope N_scope.
 
@@ -80,3 +88,18 @@ Theorem C17_not_past : forall cc sc tp fuel sq delay pps args out,
     forall t, In t (pending st1) -> (nowt <= t)%Z -> (se_time e <= t)%Z.
 Proof. exact SimTrace.not_past_trace. Qed.
 Print Assumptions C17_not_past.
+
+Theorem C17_trace : forall fuel cc sc tp tr delay pps args out,
+  SimHistory.full_args args ->
+  sim_advanced fuel cc sc tp (parse_trace tr delay) delay pps args = Ok out ->
+  exists H : list SimHistory.hrec, out = map SimHistory.h_ev H /\
+  exists f : nat -> nat,
+    (forall k rk m, nth_error H k = Some rk ->
+       (se_ev (SimHistory.h_ev rk) = TEPaddingSent m \/ se_ev (SimHistory.h_ev rk) = TEBlockingBegin m) ->
+       SimActionTrace.caused_by H k rk m (f k)) /\
+    (forall k1 k2 rk1 rk2 m, k1 <> k2 -> nth_error H k1 = Some rk1 -> nth_error H k2 = Some rk2 ->
+       (se_ev (SimHistory.h_ev rk1) = TEPaddingSent m \/ se_ev (SimHistory.h_ev rk1) = TEBlockingBegin m) ->
+       (se_ev (SimHistory.h_ev rk2) = TEPaddingSent m \/ se_ev (SimHistory.h_ev rk2) = TEBlockingBegin m) ->
+       f k1 <> f k2).
+Proof. exact SimActionTrace.action_completion_trace. Qed.
+Print Assumptions C17_trace.
